@@ -59,7 +59,7 @@ func makeCase(seed uint64, idx int, known bool) (input string, cfg Config, malfo
 	inline := k >= 70 && k < 92
 	cfg = pickConfig(r, inline)
 	g := &Gen{r: r.Fork(), known: known}
-	g.noExp = cfg.Keep && !known
+	g.noExp = false // (N01 = K81 repaired: exponents also occur in KeepCSS2 runs)
 	g.avoid9 = cfg.Keep && cfg.Prec > 0 && !known
 	switch {
 	case k < 35:
